@@ -402,6 +402,20 @@ theorem tryLog_agree (x base : Num) (hx : cmpLe x (.int 0) = false) (hb : cmpLe 
         rfl
       | ok v => rfl
 
+/-- under the side condition, the model's explicit `ZeroDivisionError` branch (log of a base that is 1.0 as a float) is dead -/
+theorem kaLog_tail_eq (x base : Num) (hz : ∀ lb, Elementary.pyLog base = .ok lb → (lb == 0) = false) :
+    (do let lx ← Elementary.pyLog x; let lb ← Elementary.pyLog base
+        if lb == 0 then (Except.error Err.divZero : Except Err Num) else fin (lx / lb))
+      = (do let lx ← Elementary.pyLog x; let lb ← Elementary.pyLog base; fin (lx / lb)) := by
+  cases hlx : Elementary.pyLog x with
+  | error e => rfl
+  | ok lx =>
+    cases hlb : Elementary.pyLog base with
+    | error e => rfl
+    | ok lb =>
+      have := hz lb hlb
+      simp only [bind, Except.bind, this, Bool.false_eq_true, if_false]
+
 theorem ka_log_agree (h : NumSem rec) (x base : Num) (hz : ∀ lb, Elementary.pyLog base = .ok lb → (lb == 0) = false) :
     ka_log rec (.num x) (.num base) = bNum2 Elementary.kaLog rec [.num x, .num base] := by
   simp only [ka_log, PyRt.pyInt, h.2.2.2, h.2.1, ok_bind, truthy_b2v, bNum2, Elementary.kaLog, pyRaise_def]
@@ -416,7 +430,7 @@ theorem ka_log_agree (h : NumSem rec) (x base : Num) (hz : ∀ lb, Elementary.py
       | false =>
         have := tryLog_agree x base hx hb hz
         simp only [pyRaise_def] at this
-        simp only [Bool.false_eq_true, if_false, pure_def, ok_bind, truthy_b2v, h1, Bool.or_false, this]
+        simp only [Bool.false_eq_true, if_false, pure_def, ok_bind, truthy_b2v, h1, Bool.or_false, this, kaLog_tail_eq x base hz]
 
 theorem ka_ln_agree (h : NumSem rec) (x : Num) (hz : ∀ lb, Elementary.pyLog LogBase.e.num = .ok lb → (lb == 0) = false) :
     ka_ln rec (.num x) = bNum1 (Elementary.body .ln) rec [.num x] := by
